@@ -457,7 +457,7 @@ fn decide(me: usize) -> Option<(usize, Decision)> {
     let mut cost_mask = 0u32;
     for (i, a) in alts.iter().enumerate() {
         let cost = match a {
-            Alt::Run(t) => i > 0 && ((me_enabled && *t != me) || s.strict || (yield_self == Some(i) && (s.yield_streak != Some(me) || s.yield_streak_len >= 8))),
+            Alt::Run(t) => i > 0 && ((me_enabled && *t != me) || s.strict || yield_self == Some(i)),
             Alt::Timer(_) | Alt::Eintr(_) => (nrun2 > 0 || s.strict) && i > 0,
         };
         if cost {
@@ -506,6 +506,10 @@ pub fn point(op: Op) -> Decision {
         }
     }
     debug_assert_eq!(s.current, me, "task running without the baton");
+    if op == Op::Yield && s.yield_streak == Some(me) && s.yield_streak_len < 8 {
+        s.yield_streak_len += 1;
+        return Decision::Proceed;
+    }
     s.tasks[me].pending = op;
     if op == Op::Yield {
         s.tasks[me].wait_others = Some(others_steps(s, me));
@@ -513,11 +517,12 @@ pub fn point(op: Op) -> Decision {
     match decide(me) {
         None => deadlock(),
         Some((next, reason)) => {
-            // a run of at most 8 yields that keep the processor is one deviation (spin-then-park
-            // back-offs yield a handful of times); a longer run (a polling loop) pays again
-            if op == Op::Yield && next == me {
-                s.yield_streak_len = if s.yield_streak == Some(me) && s.yield_streak_len < 8 { s.yield_streak_len + 1 } else { 1 };
+            // keeping the processor at a yield (one deviation) means: this task does not hand over
+            // at its next yields either (at most 8: spin-then-park back-offs yield a handful of
+            // times), i.e. it runs until it really blocks
+            if op == Op::Yield && next == me && s.yield_alts {
                 s.yield_streak = Some(me);
+                s.yield_streak_len = 1;
             } else {
                 s.yield_streak = None;
                 s.yield_streak_len = 0;
